@@ -199,7 +199,7 @@ func genTable(r *rand.Rand, idx int, srs srsSpec) tableSpec {
 	pk := colSpec{Name: []string{"fid", "id", "ogc_fid"}[r.Intn(3)], Type: "INTEGER", NotNull: r.Intn(2) == 0, PK: 1}
 	nattr := r.Intn(6)
 	var attrs []colSpec
-	types := []string{"INTEGER", "MEDIUMINT", "REAL", "DOUBLE", "TEXT", "TEXT(20)"}
+	types := []string{"INTEGER", "MEDIUMINT", "REAL", "DOUBLE", "TEXT", "TEXT(20)", "DATETIME", "DATETIME", "DATE", "TIMESTAMP"}
 	for i := 0; i < nattr; i++ {
 		attrs = append(attrs, colSpec{Name: fmt.Sprintf("%s%d", []string{"a", "naam", "Col_", "v"}[r.Intn(4)], i), Type: types[r.Intn(len(types))], NotNull: r.Intn(5) == 0})
 	}
@@ -284,6 +284,8 @@ func genAttr(r *rand.Rand, c colSpec) val {
 		return val{}
 	}
 	switch {
+	case isTimeType(c.Type):
+		return genTime(r, c.Type)
 	case strings.HasPrefix(c.Type, "TEXT"):
 		return val{K: 3, T: r.Intn(len(textPool))}
 	case c.Type == "REAL" || c.Type == "DOUBLE":
@@ -299,6 +301,30 @@ func genAttr(r *rand.Rand, c colSpec) val {
 		}
 		return val{K: 1, I: r.Int63n(2001) - 1000}
 	}
+}
+
+// genTime: an instant between 1915 and 2134.  DATE: midnight UTC.  DATETIME / TIMESTAMP: mostly with non-zero
+// milliseconds (the GeoPackage form 2023-05-17T23:59:59.891Z), some whole seconds, for TIMESTAMP sometimes down to
+// the nanosecond; a few fixed instants at the edges (last millisecond of a year, just before the epoch).
+func genTime(r *rand.Rand, typ string) val {
+	const dayNs = int64(86400) * 1000000000
+	day := int64(r.Intn(80000)) - 20000
+	if strings.EqualFold(typ, "DATE") {
+		return val{K: 4, I: day * dayNs}
+	}
+	ns := day*dayNs + int64(r.Intn(86400))*1000000000
+	switch k := r.Intn(20); {
+	case k < 5: // whole seconds
+	case k == 5:
+		return val{K: 4, I: 1577836799891000000} // 2019-12-31T23:59:59.891Z
+	case k == 6:
+		return val{K: 4, I: -1000000} // 1969-12-31T23:59:59.999Z
+	case k < 9 && strings.EqualFold(typ, "TIMESTAMP"):
+		ns += 1 + r.Int63n(999999999)
+	default:
+		ns += int64(1+r.Intn(999)) * 1000000
+	}
+	return val{K: 4, I: ns}
 }
 
 // genStream: n features for table t.  pkMode 0: explicit increasing keys starting after `last`; 1: NULL keys
@@ -769,12 +795,12 @@ func runC12Cases(dir string, cases []c12Case, workers int) (map[int]c12Result, e
 func runC12(c *hc.Ctx) error {
 	c.CorrInit("Texel.Corr.C12", "theories/Corr/C12.v", 40)
 	c.Sum.Rule = "every (page size p in 1..7, feature count n in 0..3p+1) pair several times, plus p in {50,1000}; per case random tables " +
-		"(0-5 attribute columns INTEGER/MEDIUMINT/REAL/DOUBLE/TEXT/TEXT(20), NOT NULL or not, key column first or elsewhere, geometry column first/middle/last, " +
+		"(0-5 attribute columns INTEGER/MEDIUMINT/REAL/DOUBLE/TEXT/TEXT(20)/DATETIME/DATE/TIMESTAMP, NOT NULL or not, key column first or elsewhere, geometry column first/middle/last, " +
 		"8 geometry type names, srs with an id of its own / pre-seeded id with library content / pre-seeded id with other content), 1-3 tables per file, " +
-		"one WriteFeatures call per table (sometimes a second call on the first table), values NULL/integer (incl. int64 extremes)/real/text (quotes, unicode, empty, long), " +
+		"one WriteFeatures call per table (sometimes a second call on the first table), values NULL/integer (incl. int64 extremes)/real/text (quotes, unicode, empty, long)/time.Time (what ReadFeatures delivers for DATE, DATETIME, TIMESTAMP columns: midnight, whole seconds, non-zero milliseconds, nanoseconds, before 1970), " +
 		"geometries point/linestring/polygon(with hole)/multipoint/multilinestring/multipolygon, ~20% empty (POINT EMPTY = NaN, no-point geometries) or all empty or none, " +
 		"keys explicit increasing with gaps or NULL (assigned by SQLite: insertion order observable). distinct = distinct (p, n, class, schema shape); non-trivial = n > 0"
-	c.Sum.Oracle = "on the file written by the real TargetGeopackage, read back with database/sql: one row per feature in stream order with equal attribute values and an equal decoded geometry " +
+	c.Sum.Oracle = "on the file written by the real TargetGeopackage, read back with database/sql: one row per feature in stream order with equal attribute values (date/time cells read raw and compared as instants to the nanosecond: the driver writes a time.Time in its own text layout) and an equal decoded geometry " +
 		"(GeoPackage header srs id and empty flag), rtree = one (key, bbox) entry per row with a non-empty geometry, gpkg_contents extent = bounding box of all written coordinates (NULL if none), " +
 		"PRAGMA table_info / gpkg_contents / gpkg_geometry_columns / gpkg_spatial_ref_sys rows equal the source's, rtree extension registered, " +
 		"SQLite change counter = one transaction per non-empty page + one extent update per page that enlarges the bounding box; a run that ends in log.Fatalf is a violation"
